@@ -27,6 +27,7 @@ def parseCellVal (t : String) : Option (Option DV) :=
   | ["i32", n] => n.toInt?.map fun v => some (.i32 v)
   | ["i64", n] => n.toInt?.map fun v => some (.i64 v)
   | ["s", h] => (bytesOfHexStr h).map fun v => some (.str v)
+  | ["t", h] => (bytesOfHexStr h).map fun v => some (.str v)
   | ["blob", h] => (bytesOfHexStr h).map fun v => some (.blob v)
   | ["date", n] => n.toInt?.map fun v => some (.date v)
   | ["ts", n] => n.toInt?.map fun v => some (.ts v)
@@ -52,7 +53,9 @@ def showCell : Option DV → String
 def parseTy : String → Option Ty
   | "bool" => some .bool | "i16" => some .i16 | "i32" => some .i32 | "i64" => some .i64
   | "str" => some .str | "blob" => some .blob | "date" => some .date | "ts" => some .ts
-  | "iv" => some .interval | _ => none
+  | "iv" => some .interval
+  | "f64" | "dec" => some .str     -- opaque: the cell is its Display text (`t:<hex>` on the wire)
+  | _ => none
 
 def allSomeL {α} : List (Option α) → Option (List α)
   | [] => some []
@@ -98,10 +101,39 @@ def whyTag (o : Opts) (t : Table) (texts : List (List Bytes)) : String :=
   else if o.delim == o.quote || isTerm o.delim || isTerm o.quote then "bad-options"
   else "cell-text"
 
+/-- Opaque (f64 / decimal) columns: a field read back is fine when empty (NULL) or equal to one of
+the texts that were written for that column; the four letters `NULL` are a parse error; any other
+text cannot be judged by the model.  Returns (some NULL text seen, some unknown text seen). -/
+def opaqueStatus (ops : List Bool) (orig : List (List Bytes)) (recs : List (List Bytes)) : Bool × Bool :=
+  recs.foldl (fun acc r =>
+    (List.zip (List.zip ops r) (List.range r.length)).foldl (fun acc x =>
+      let ((isOp, f), k) := x
+      if !isOp || f.isEmpty then acc
+      else if orig.any (fun row => row[k]? == some f) && f != nullText then acc
+      else if f == nullText then (true, acc.2)
+      -- a text with a byte no number syntax uses (delimiter, quote, space, newline, …) is a
+      -- parse error for both `f64::from_str` and `Decimal::from_str`
+      else if f.any (fun b => !(isDigit b || (65 ≤ b.toNat && b.toNat ≤ 90) || (97 ≤ b.toNat && b.toNat ≤ 122) ||
+                               b == 43 || b == 45 || b == 46 || b == 95)) then (true, acc.2)
+      else (acc.1, true)) acc) (false, false)
+
+def importOpaque (o : Opts) (tyNames : List String) (tys : List Ty) (orig : List (List Bytes))
+    (file : Bytes) : ImportResult :=
+  let ops := tyNames.map fun n => n == "f64" || n == "dec"
+  if !ops.any id then importCsv o tys file
+  else match readCsv o file with
+    | none => .error
+    | some recs =>
+      let st := opaqueStatus ops orig recs
+      if st.2 then .unmodelled
+      else match importCsv o tys file with
+        | .panic => if st.1 then .unmodelled else .panic
+        | r => if st.1 then .error else r
+
 def answer (line : String) : String :=
   match line.trimAscii.toString.splitOn " " with
-  | ["tbl", d, q, e, h, tys, rows] =>
-    match parseOpts d q e h, allSomeL ((tys.splitOn ",").map parseTy) with
+  | ["tbl", d, q, e, h, tysS, rows] =>
+    match parseOpts d q e h, allSomeL ((tysS.splitOn ",").map parseTy) with
     | some o, some tys =>
       let rowsP : Option Table :=
         if rows == "-" then some []
@@ -110,10 +142,14 @@ def answer (line : String) : String :=
       | none => "unmodelled"
       | some t =>
         match tableTexts t with
-        | none => "export:panic rt:false why:cell-display-panic"
+        | none =>
+          let file := (exportFile o t).1
+          let orig := t.map fun row => row.map fun c => (cellText c).getD []
+          "file:" ++ hexOrDash file ++ " import:" ++ showImport (importOpaque o (tysS.splitOn ",") tys orig file) ++
+            " rt:false why:cell-display-panic"
         | some texts =>
           let file := writeCsv o texts
-          let imp := importCsv o tys file
+          let imp := importOpaque o (tysS.splitOn ",") tys texts file
           let rt := match imp with | .ok t' => sameBag t t' | _ => false
           "file:" ++ hexOrDash file ++ " import:" ++ showImport imp ++
             (if rt then " rt:true" else " rt:false why:" ++ whyTag o t texts)
